@@ -31,6 +31,9 @@ var fileMutators = map[string]bool{
 var ambientReads = map[string]bool{
 	"os.Getenv": true, "os.LookupEnv": true, "os.Environ": true, "os.Getwd": true, "os.Hostname": true, "os.Getpid": true,
 	"time.Now": true, "time.Since": true, "os.UserHomeDir": true, "os.Executable": true,
+	// the working directory and the user's environment, read indirectly
+	"path/filepath.Abs": true, "path/filepath.EvalSymlinks": true, "os.TempDir": true, "os.UserCacheDir": true, "os.UserConfigDir": true,
+	"os.Getuid": true, "os.Geteuid": true, "os.Getgid": true, "os/user.Current": true, "os.ExpandEnv": true, "os.Expand": true,
 }
 
 func (w *World) repoFuncsSorted() []*ssa.Function {
